@@ -1107,6 +1107,7 @@ impl<'a, SE: extensions::ShellExtensions> WordExpander<'a, SE> {
     ) -> Result<Vec<WordField>, error::Error> {
         let mut fields: Vec<WordField> = vec![];
         let concatenation_joiner = self.shell.get_ifs_first_char();
+        let mut saw_empty_list = false;
 
         for piece in pieces {
             let Expansion {
@@ -1114,6 +1115,10 @@ impl<'a, SE: extensions::ShellExtensions> WordExpander<'a, SE> {
                 concatenate,
                 ..
             } = self.expand_word_piece(piece.piece).await?;
+
+            if !concatenate && this_fields.is_empty() {
+                saw_empty_list = true;
+            }
 
             let fields_to_append = if concatenate {
                 #[expect(unstable_name_collisions)]
@@ -1158,6 +1163,17 @@ impl<'a, SE: extensions::ShellExtensions> WordExpander<'a, SE> {
 
                 fields.push(WordField(next_pieces));
             }
+        }
+
+        // A `"$@"` (or `"${a[@]}"`) without elements yields no field at all, also when the rest
+        // of the quoted text expands to nothing: `"$@$empty"` is removed like `"$@"`.
+        if saw_empty_list
+            && fields.len() <= 1
+            && fields
+                .iter()
+                .all(|WordField(pieces)| pieces.iter().all(|piece| piece.as_str().is_empty()))
+        {
+            fields.clear();
         }
 
         Ok(fields)
